@@ -84,13 +84,29 @@ pub fn run(args: &[String]) -> ! {
         }
         ctx.finish();
     }
-    let budget = if ctx.quick() { 50.0 } else { 1500.0 };
-    let capped = run_worlds(&mut ctx, "C34", budget);
+    let budget = if ctx.quick() { 25.0 } else { 1200.0 };
+    let mut capped = run_worlds(&mut ctx, "C34", budget);
+    // OAuth2 client key objects (ES256, and RS256 with the client's legacy switch): an issued
+    // access token, then revocation of the key that signed it, refreshes and time
+    {
+        use crate::worlds::oauth::{Cfg as OCfg, Mutation, OAuthW, Op as OOp};
+        let mut summary = Vec::new();
+        for (name, legacy) in [("oauth2-client-key-es256", false), ("oauth2-client-key-rs256", true)] {
+            let cfg = OCfg { clients: vec![0], max_codes: 1, max_sets: 3, lifecycle: false, ticks: vec![0], pre_ops: vec![OOp::Authorise(0, 1), OOp::Exchange(0, Mutation::None)], legacy_crypto: legacy, key_revocation: true };
+            let depth = if ctx.quick() { 2 } else { 4 };
+            let mut w = OAuthW::new(cfg);
+            let opts = Opts { depth, procs: 2, deadline_s: if ctx.quick() { 12.0 } else { 300.0 }, log2_slots: 22, dedup: true, max_samples: 2, par_depth: 1 };
+            let rep = forkdfs::run_into_ctx(&mut ctx, &mut w, &opts, name);
+            capped |= rep.capped;
+            summary.push(json!({"world": name, "depth": depth, "states": rep.states, "transitions": rep.transitions, "capped": rep.capped, "outcomes": rep.outcomes.keys().collect::<Vec<_>>()}));
+        }
+        ctx.set("oauth2_key_worlds", json!(summary));
+    }
     ctx.set("exhaustive", !capped);
     if capped {
         ctx.assume("the wall-clock cap was hit in at least one world: that world is complete only below the stated depth");
     }
-    ctx.assume("the artefacts are login tokens (JWS ES256 signed by the domain key object); OAuth2 client keys and the JWE usages are not driven by this world");
+    ctx.assume("the artefacts are login tokens (JWS ES256 signed by the domain key object) on two replicas, and OAuth2 access tokens signed by a client's key object (ES256, and RS256 with the legacy switch) on one server; the JWE and HKDF usages are not driven");
     ctx.assume("acceptance is the real validate_client_auth_info_to_ident on each replica and on a server restored from a backup of the replica's database");
     ctx.finish();
 }
